@@ -13046,6 +13046,69 @@ fn clock_domain_inst_port_unpacked_array_slice() {
 }
 
 #[test]
+fn clock_domain_inst_port_leading_constant() {
+    // Regression: the first connection of a port group was its representative
+    // even when it carried no domain (a constant), which is compatible with
+    // everything, so a crossing between the later connections went unreported.
+    let code = r#"
+    module ModuleA (
+        i_clk_a: input  'a clock,
+        i_b    : input  'b logic,
+        o_a    : output 'a logic,
+    ) {
+        inst u: ModuleB (
+            i_x: 1'b0,
+            i_y: i_b ,
+            o_q: o_a ,
+        );
+    }
+    module ModuleB (
+        i_x: input  logic,
+        i_y: input  logic,
+        o_q: output logic,
+    ) {
+        assign o_q = i_x & i_y;
+    }
+    "#;
+    let errors = analyze(code);
+    assert!(
+        errors
+            .iter()
+            .any(|e| matches!(e, AnalyzerError::MismatchClockDomain { .. })),
+        "{errors:?}"
+    );
+
+    // Same-domain connections behind a constant stay accepted.
+    let code = r#"
+    module ModuleA (
+        i_clk_a: input  'a clock,
+        i_a    : input  'a logic,
+        o_a    : output 'a logic,
+    ) {
+        inst u: ModuleB (
+            i_x: 1'b0,
+            i_y: i_a ,
+            o_q: o_a ,
+        );
+    }
+    module ModuleB (
+        i_x: input  logic,
+        i_y: input  logic,
+        o_q: output logic,
+    ) {
+        assign o_q = i_x & i_y;
+    }
+    "#;
+    let errors = analyze(code);
+    assert!(
+        !errors
+            .iter()
+            .any(|e| matches!(e, AnalyzerError::MismatchClockDomain { .. })),
+        "{errors:?}"
+    );
+}
+
+#[test]
 fn clock_domain_array_literal_compound_element() {
     // Regression: an array-literal element wrapped in any operator was left
     // unevaluated at gather time (clock_domain None), so the crossing that is
